@@ -33,7 +33,7 @@ package c22
 //
 // Time. Every history runs inside a testing/synctest bubble (DESIGN 1.4, as
 // C21/C24): all rapid draws happen before the bubble, the verdict leaves it as
-// a value; the bubble of the n-th case first sleeps to 2200-01-01 + n*30 days,
+// a value; the bubble of the n-th case first sleeps to 2100-01-01 + n*3 days (int64 nanoseconds end in 2262: with 30-day steps from 2200 the thorough tier ran past that and crashed the Go runtime),
 // so every time stamp ego kept from an earlier case (JWKS fetch time, miss
 // refresh time) or from the start-up outside the bubble lies in the past and
 // every case starts with a stale JWKS cache (the first key lookup re-fetches
@@ -866,7 +866,7 @@ func validCase(c Case) string {
 
 // ---------------------------------------------------------------- oracle
 
-var bubbleBase = time.Date(2200, 1, 1, 0, 0, 0, 0, time.UTC)
+var bubbleBase = time.Date(2100, 1, 1, 0, 0, 0, 0, time.UTC)
 
 const watchdogS = 900
 
@@ -887,7 +887,7 @@ func oracle(c Case) vkit.Outcome {
 	})
 	defer wd.Stop()
 
-	epoch := bubbleBase.Add(time.Duration(f.seq) * 30 * 24 * time.Hour)
+	epoch := bubbleBase.Add(time.Duration(f.seq) * 3 * 24 * time.Hour)
 	var out vkit.Outcome
 	func() {
 		defer func() {
